@@ -464,6 +464,9 @@ def h_run(ctx):
 
     composition = w["composition"]
     outcome = "ok"
+    import sys as _sys
+    old_limit = _sys.getrecursionlimit()
+    _sys.setrecursionlimit(min(old_limit, 450))  # a runaway recursion of the driver is reported quickly
     with hlib.Spy() as spy:
         spy.wrap(fm.Composition, "_update_recursive", before=mon.before_update_recursive,
                  after=mon.after_update_recursive)
@@ -486,6 +489,8 @@ def h_run(ctx):
         except Exception as ex:  # pylint: disable=broad-except
             outcome = "error:" + type(ex).__name__
             ctx.log("error-text", type(ex).__name__)
+        finally:
+            _sys.setrecursionlimit(old_limit)
     ctx.log("outcome", outcome)
     ctx.log("updates", [n for n, _ in mon.updates])
     ctx.log("update_times", [t for _, t in mon.updates])
